@@ -48,6 +48,10 @@ def local_dict(f, name) -> Optional[Dict[str, str]]:
     # whatever the local is called: the one dict literal with string keys and >= 20 entries
     big = [n.value for n in walk_local(f.node) if isinstance(n, (ast.Assign, ast.AnnAssign)) and isinstance(n.value, ast.Dict) and len(n.value.keys) >= 20
            and all(isinstance(k, ast.Constant) and isinstance(k.value, str) for k in n.value.keys)]
+    if not big:
+        # hoisted to a module-level constant that the function reads
+        used = {n.id for n in walk_local(f.node) if isinstance(n, ast.Name) and isinstance(n.ctx, ast.Load)}
+        big = [v for k_, v in f.module.assigns.items() if k_ in used and isinstance(v, ast.Dict) and len(v.keys) >= 20 and all(isinstance(k, ast.Constant) and isinstance(k.value, str) for k in v.keys)]
     if len(big) == 1:
         return {k.value: norm(v) for k, v in zip(big[0].keys, big[0].values)}
     return None
@@ -161,7 +165,19 @@ def run(prog: Program, chk: Check):
         itn = loops[0]
         lp = itn.node
         fv = itn.target.elts[-1].id if isinstance(itn.target, ast.Tuple) else itn.target.id
-        skips = [s for s in walk_local(lp) if isinstance(s, (ast.Continue, ast.Break))] if not itn.is_comp else list(itn.conditions)
+        skips = [s for s in walk_local(lp) if isinstance(s, ast.Break)] if not itn.is_comp else list(itn.conditions)
+        if not itn.is_comp and any(isinstance(s, ast.Continue) for s in walk_local(lp)):
+            # `continue` is fine after the member was emitted: no way round the loop body may avoid every statement that
+            # formats the field's name
+            fg_ = C.build(f.node)
+            head_ = [n for n in fg_.nodes if n.kind == "for" and n.ast is lp]
+            emits_ = {n.id for n in fg_.nodes if n.ast is not None and n.kind == "stmt" and any(isinstance(x, ast.FormattedValue) and norm(x.value) == f"{fv}.name" for x in ast.walk(n.ast))
+                      and any(a is lp for a in ancestors(n.ast))}
+            if head_:
+                starts_ = [e.dst for e in fg_.succ[head_[0].id] if e.kind == "iter"]
+                r_ = flow.reach(fg_, starts_, blocked=emits_, follow=lambda e: e.kind not in ("exc", "except"), blocked_pass_exc=False)
+                if head_[0].id in r_ and not all(s_ in emits_ for s_ in starts_):
+                    skips = skips + ["a path through the loop body emits nothing for the field"]
         scope = [lp] if not itn.is_comp else list(itn.body)
         reads = {n.attr for sc_ in scope for n in walk_local(sc_) if isinstance(n, ast.Attribute) and path_of(n.value) == fv}
         # attributes read from the field inside helpers it is handed to (new helpers of the same class, transitively)
